@@ -126,6 +126,9 @@ class HProxy:
     def float_bits(self, v, n):
         return self._get().float_bits(v, n)
 
+    def is_integer(self, x):
+        return self._get().is_integer(x)
+
     def float_of_bits(self, r, n):
         return self._get().float_of_bits(r, n)
 
@@ -391,6 +394,13 @@ class SymH:
 
     def mod(self, a, b):
         return ops.simp_int(zint(a) % zint(b))
+
+    def is_integer(self, x):
+        if isinstance(x, (int, SInt)):
+            return True
+        if isinstance(x, float):
+            return x.is_integer()
+        return ops.simp_bool(z3.IsInt(zreal(x)))
 
     def float_bits(self, v, n):
         """IEEE-754 image of v as an n-bit unsigned integer (A-float: uninterpreted)"""
@@ -668,6 +678,9 @@ class NativeH:
 
     def decimal_digits(self, v, count):
         return [(v // 10**k) % 10 for k in range(count)]
+
+    def is_integer(self, x):
+        return float(x).is_integer()
 
     def float_bits(self, v, n):
         import struct
